@@ -90,9 +90,12 @@ theorem read_writeColumn {f f' : Frame} (wf : WF f) {col : List Val} {index name
     | skip
   · rename_i hrows
     exact absurd hrows hne
-  · rename_i hlen nm hnm _ _ _ c hc _ ct hct
+  · rename_i hlen nm hnm _ _ _ c hc _ ct hct _ rows' hloop
     injection h with h1 h2
     subst h1
+    have e : rows' = (writeColLoop ct.2 c f.rows col).1 := by rw [hloop]
+    subst e
+    have h2 : (writeColLoop ct.2 c f.rows col).2 = none := by rw [hloop]
     refine ⟨c, ct, by simp [colTarget, hnm, hc], hct, rfl, ?_⟩
     intro r hr
     have hrow : f.rows[r]? = some f.rows[r] := List.getElem?_eq_getElem hr
